@@ -54,9 +54,11 @@ Section NIProof.
       + (* assignment *)
         destruct obs.
         * (* observable: target and reads are sinks *)
+          assert (Hy : Rel y).
+          { apply Rel_sink, HS. right; right. exists pc, rs, f, nx. assumption. }
           assert (Hrs : forall r, In r rs -> s r = s' r).
-          { intros r Hr. apply Hag, Rel_sink, HS. right; right.
-            exists pc, y, rs, f, nx. split; [assumption | right; assumption]. }
+          { intros r Hr. apply Hag. eapply Rel_back; [|exact Hy].
+            apply HT. exists pc, rs, f, true, nx. split; assumption. }
           rewrite (Hwf h s s' Hrs), (map_agree rs s s' Hrs).
           f_equal. apply IH.
           intros z Hz. unfold upd. destruct (N_eq_dec z y); [reflexivity | apply Hag; assumption].
@@ -78,8 +80,7 @@ Section NIProof.
     - (* the perturbed assignment to x *)
       destruct Hpert as (rs & f & f' & obs & nx & Hi & Hi'). rewrite Hi, Hi'.
       destruct obs.
-      + exfalso. apply Hx, Rel_sink, HS. right; right.
-        exists pc, x, rs, f, nx. split; [assumption | left; reflexivity].
+      + exfalso. apply Hx, Rel_sink, HS. right; right. exists pc, rs, f, nx. assumption.
       + cbn [app]. apply IH.
         intros z Hz. unfold upd. destruct (N_eq_dec z x) as [->|Hne]; [contradiction | apply Hag; assumption].
   Qed.
